@@ -905,3 +905,96 @@ def consumed_ranges(cases: List[Case]) -> List[Tuple[Any, int, int]]:
             lo, hi = per.get(base, (delta, delta + n))
             per[base] = (min(lo, delta), max(hi, delta + n))
     return [(b, lo, hi) for b, (lo, hi) in per.items()]
+
+
+# ------------------------------------------------------------ canonical text
+def _leaf_str(leaf: Tuple) -> str:
+    _, base, delta, n, signed, kind = leaf
+    k = kind if kind.startswith("float") else ("s" if signed else "u")
+    if kind.startswith("int-"):
+        k += "(" + kind[4:] + ")"
+    return "%s%d@%d" % (k, n, delta)
+
+
+def canon_tree(t: Tuple) -> str:
+    k = t[0]
+    if k == "c":
+        return str(t[1])
+    if k == "read":
+        return "R[%s]" % _leaf_str(t)
+    if k == "add":
+        return "(" + " + ".join(canon_tree(x) for x in t[1]) + ")"
+    if k == "mul":
+        return "(" + " * ".join(canon_tree(x) for x in t[1]) + ")"
+    if k in ("round", "abs", "int"):
+        return "%s(%s%s)" % (k, canon_tree(t[1]), "".join(", %s" % x for x in t[2:]))
+    if k in ("max", "min"):
+        return "%s(%s)" % (k, ", ".join(canon_tree(x) for x in t[1]))
+    if k in ("lshift", "div", "bitor", "bitand", "bitxor", "rshift", "floordiv", "mod", "pow"):
+        return "%s(%s, %s)" % (k, canon_tree(t[1]), canon_tree(t[2]))
+    return repr(t)
+
+
+def canon_value(v) -> str:
+    if v is None:
+        return "-"
+    if v == NONE:
+        return "None"
+    if v[0] == "num":
+        return canon_tree(v[1])
+    if v[0] == "const":
+        return repr(_plain(v[1])) if not isinstance(v[1], dict) else "{...}"
+    if v[0] == "obj":
+        if v[1] == "label":
+            return "label(%s)" % canon_value(_unkey(v[3]))
+        if v[1] == "call":
+            args = ", ".join(canon_value(_unkey(a)) for a in v[3]) if len(v) > 3 else ""
+            return "%s(%s)" % (v[2], args)
+        return v[1]
+    if v[0] == "selfobj":
+        return "self"
+    if v[0] == "raised":
+        return "raise %s" % v[1]
+    if v[0] == "typeerror":
+        return "TypeError(%s)" % v[1]
+    return "opaque(%s)" % (v[1],)
+
+
+def _unkey(k):
+    """Keys of values are the values themselves with inner tuples frozen; good enough to render."""
+    if isinstance(k, tuple) and k and k[0] in ("num", "const", "none", "obj", "opaque", "selfobj", "raised", "typeerror"):
+        if k[0] == "const" and isinstance(k[1], tuple) and k[1] and k[1][0] == "dict":
+            return ("const", {})
+        return k
+    return ("opaque", repr(k))
+
+
+def canon_cond(c: Tuple) -> str:
+    if c[0] == "not":
+        return "!" + canon_cond(c[1])
+    if c[0] in ("Eq", "Lt", "Gt", "In") and len(c) == 3:
+        op = {"Eq": "==", "Lt": "<", "Gt": ">", "In": " in "}[c[0]]
+        rhs = canon_tree(c[2]) if isinstance(c[2], tuple) and c[2] and c[2][0] in ("c", "read", "add", "mul") else repr(c[2])
+        return "%s%s%s" % (canon_tree(c[1]), op, rhs)
+    if c[0] == "raises":
+        return "raises(%s)" % c[1]
+    return repr(c)
+
+
+def canon_cases(cases: List[Case]) -> Tuple[str, List[str]]:
+    reads = []
+    for c in cases:
+        for leaf in c.reads:
+            s = _leaf_str(leaf)
+            if s not in reads:
+                reads.append(s)
+    out = []
+    for c in cases:
+        cl = [x for x in c.conds if x[0] != "raises"]
+        pos_eq = [x for x in cl if x[0] == "Eq"]
+        if pos_eq and all(x[0] == "Eq" or (x[0] == "not" and x[1][0] == "Eq") for x in cl):
+            cl = pos_eq          # R == c makes the R != c' conjuncts redundant
+        conds = sorted(canon_cond(x) for x in cl)
+        val = canon_value(c.value) if c.outcome == "return" else "raise %s" % c.value
+        out.append("%s -> %s" % (" & ".join(conds) if conds else "always", val))
+    return ",".join(reads), sorted(set(out))
